@@ -746,6 +746,24 @@ def m_satsub(I, st, callee, argv, depth, t, dty):
         yield st, App('saturating_sub', a, b)
 
 
+_INT_MAX = {'u8': 2**8 - 1, 'u16': 2**16 - 1, 'u32': 2**32 - 1, 'u64': 2**64 - 1, 'usize': 2**64 - 1}
+
+
+@model('core::num::checked_add', 'core::num::checked_sub', 'core::num::checked_mul')
+def m_checked_arith(I, st, callee, argv, depth, t, dty):
+    a, b = freeze(st, argv[0]), freeze(st, argv[1])
+    sty = (callee.get('self_ty') or '')
+    mx = _INT_MAX.get(sty)
+    op = callee['name'][len('checked_'):]
+    if a[0] == 'int' and b[0] == 'int' and mx is not None:
+        r = {'add': a[1] + b[1], 'sub': a[1] - b[1], 'mul': a[1] * b[1]}[op]
+        yield st, (Some(Int(r)) if 0 <= r <= mx else NONE)
+        return
+    test = App('checked_' + op, a, b)
+    for s2, name, payload in I.fork_result(st, test, 'Some', 'None'):
+        yield s2, (Some(App({'add': 'Add', 'sub': 'Sub', 'mul': 'Mul'}[op], a, b)) if name == 'Some' else NONE)
+
+
 @model('core::num::to_be_bytes')
 def m_tobe(I, st, callee, argv, depth, t, dty):
     v = freeze(st, argv[0])
